@@ -113,6 +113,7 @@ int main(int argc, char **argv) {
     int shapemax = argc > 5 ? atoi(argv[5]) : 15;
     FILE *in = fopen(argv[1], "r");
     if (!in) return 2;
+    FILE *devnull = fopen("/dev/null", "w");
     vh_open(argv[2]);
     vh_install_handlers();
     vh_ledger_on = 1; vh_quarantine = 1;
@@ -188,7 +189,14 @@ int main(int argc, char **argv) {
                 } else ok = T->putobj(T, kb, kn, vn ? vb : NULL, vn);
             } else if (!strcmp(op, "get")) {
                 sz = 99999;
-                if (profile == 0 || profile == 3) p = T->get(T, (char *) kb, &sz, newmem);
+                if ((profile == 0 || profile == 3) && (vh_step % 5) == 0) {
+                    /* getstr has no size output: usable when the stored value is a C string */
+                    char *sp = T->getstr(T, (char *) kb, newmem);
+                    if (sp && vh_failed == 0) {
+                        size_t cur_sz = 0; void *chk = T->get(T, (char *) kb, &cur_sz, false);
+                        sz = chk ? cur_sz : 0; p = sp;
+                    } else { p = sp; sz = sp ? strlen(sp) + 1 : 0; }
+                } else if (profile == 0 || profile == 3) p = T->get(T, (char *) kb, &sz, newmem);
                 else p = T->getobj(T, kb, kn, &sz, newmem);
                 ok = p != NULL;
                 if (p) { rv = valid_(p, sz); n = (long) sz; if (newmem) keep(p, rv, sz, 0); }
@@ -203,6 +211,7 @@ int main(int argc, char **argv) {
                 if (p) { rk = keyid(p, sz); keep(p, rk, sz, 1); p = NULL; }
             } else if (!strcmp(op, "size")) { n = (long) T->size(T); }
             else if (!strcmp(op, "clear")) { T->clear(T); }
+            else if (!strcmp(op, "debug")) { ok = T->debug(T, devnull); }
             else if (!strcmp(op, "next")) {
                 if (ts) T->lock(T);
                 ok = T->getnext(T, &cur, newmem);
